@@ -25,6 +25,7 @@ use std::panic::{catch_unwind, AssertUnwindSafe};
 const ML_COUNT: &str = "multiline-count-counts-matches";
 const F1: &str = "crlf-line-matches-only-through-cr";
 const ML_ONLY: &str = "multiline-only-matching-records";
+const CTX: &str = "line-matches-only-in-buffer-context";
 const ML_PANIC: &str = "multiline-lookahead-cut-match-beyond-block";
 
 fn viol(rep: &mut Report, kind: &str, class: &str, tie: &str, case: &str, detail: String) {
@@ -77,17 +78,170 @@ fn count_lines(out: &[u8]) -> u64 {
     out.iter().filter(|&&b| b == b'\n').count() as u64
 }
 
-/// F1 (a C01 finding that shows through C10): under --crlf the searcher's fast path reports a line whose content
-/// (without CRLF) has no match, because the pattern matches only when the CR is visible.
-fn f1_input(o: &Opts, m: &RegexMatcher, input: &[u8]) -> bool {
+/// F1 (a C01 finding that shows through C10) on one reported line: under --crlf the searcher's fast path reports a
+/// line whose content (without CRLF) has no match, because the pattern matches only when the CR is visible.
+fn f1_line(o: &Opts, m: &RegexMatcher, l: &[u8]) -> bool {
     use grep_matcher::Matcher;
     if !o.crlf || o.invert {
         return false;
     }
-    split_lines(input).iter().any(|(_, l)| {
-        let c = content(l, true);
-        c.len() + 2 == l.len() && m.find(c).ok().flatten().is_none() && m.find(&l[..l.len() - 1]).ok().flatten().is_some()
-    })
+    let c = content(l, true);
+    c.len() + 2 == l.len() && m.find(c).ok().flatten().is_none() && m.find(&l[..l.len() - 1]).ok().flatten().is_some()
+}
+
+/// `line-matches-only-in-buffer-context` on one reported line (line-oriented search): the matcher finds no match in
+/// the line's own content (what the printers search since 0cdcce3) but does find one when the same bytes are
+/// searched inside the file — from the line's start, the haystack ending with the line's content — as the searcher's
+/// fast path does. Only look-behind can tell the two apart (e.g. `\B` after a stray UTF-8 continuation byte, where the
+/// regex engine's backward decoding reaches the previous line's terminator).
+fn ctx_line(o: &Opts, m: &RegexMatcher, input: &[u8], off: usize, l: &[u8]) -> bool {
+    use grep_matcher::Matcher;
+    if o.invert || input.get(off..off + l.len()) != Some(l) {
+        return false;
+    }
+    let c = content(l, o.crlf);
+    if m.find(c).ok().flatten().is_some() {
+        return false;
+    }
+    // the buffer the searcher saw starts at the file's start or (after a roll) at an earlier line's start
+    let mut starts = vec![0usize];
+    starts.extend(input[..off].iter().enumerate().filter(|(_, &b)| b == b'\n').map(|(i, _)| i + 1));
+    starts.iter().any(|&s| s < off && m.find_at(&input[s..off + c.len()], off - s).ok().flatten().is_some())
+}
+
+/// class of one match message without submatch, by mechanism
+fn no_sub_class(rep: &mut Report, ml: bool, o: &Opts, m: &RegexMatcher, input: &[u8], off: usize, l: &[u8]) -> &'static str {
+    if ml {
+        ""
+    } else if f1_line(o, m, l) {
+        rep.branch(&format!("class:{}:attributed", F1));
+        F1
+    } else if ctx_line(o, m, input, off, l) {
+        rep.branch(&format!("class:{}:attributed", CTX));
+        CTX
+    } else {
+        ""
+    }
+}
+
+/// What the JSON match messages of one file show about the mechanisms behind the known-finding classes.
+#[derive(Default)]
+struct Mech {
+    /// a submatch whose text crosses a line terminator (a `\n` before its last byte)
+    sub_spans_lines: bool,
+    /// an empty submatch
+    sub_empty: bool,
+    /// `lines` of the match messages that carry no submatch at all
+    no_sub_lines: Vec<Vec<u8>>,
+    /// their absolute offsets
+    no_sub_offs: Vec<usize>,
+    /// number of records `-U -o` must print for these messages by its own rule (theorem
+    /// `only_matching_multiline_records`): per line of a block, the non-empty intersections of the submatches with
+    /// the line without its terminator
+    o_pieces: u64,
+    /// number of submatches
+    subs: u64,
+}
+
+fn json_bytes(v: &Value) -> Vec<u8> {
+    if let Some(t) = v.get("text").and_then(|t| t.as_str()) {
+        return t.as_bytes().to_vec();
+    }
+    if let Some(b) = v.get("bytes").and_then(|t| t.as_str()) {
+        return base64_decode(b.as_bytes()).unwrap_or_default();
+    }
+    vec![]
+}
+
+fn mech_of<'a>(msgs: impl Iterator<Item = &'a Value>, crlf: bool) -> Mech {
+    let mut m = Mech::default();
+    for v in msgs {
+        let subs = v["data"]["submatches"].as_array().cloned().unwrap_or_default();
+        let lines = json_bytes(&v["data"]["lines"]);
+        m.subs += subs.len() as u64;
+        for (ls, l) in split_lines(&lines) {
+            let le = ls + content(l, crlf).len();
+            for sm in &subs {
+                let (a, b) = (sm["start"].as_u64().unwrap_or(0) as usize, sm["end"].as_u64().unwrap_or(0) as usize);
+                if a.max(ls) < b.min(le) {
+                    m.o_pieces += 1;
+                }
+            }
+        }
+        if subs.is_empty() {
+            m.no_sub_lines.push(json_bytes(&v["data"]["lines"]));
+            m.no_sub_offs.push(v["data"]["absolute_offset"].as_u64().unwrap_or(0) as usize);
+        }
+        for sm in subs {
+            let t = json_bytes(&sm["match"]);
+            if t.is_empty() {
+                m.sub_empty = true;
+            }
+            if t.len() >= 2 && t[..t.len() - 1].contains(&b'\n') {
+                m.sub_spans_lines = true;
+            }
+        }
+    }
+    m
+}
+
+/// `multiline-count-counts-matches`, mechanism for "--count differs from the printed lines": effective multi-line,
+/// not inverted, and --count really is the match count (it equals --count-matches).
+fn class_count_vs_lines(rep: &mut Report, ml: bool, o: &Opts, count: u64, cm: u64) -> &'static str {
+    if ml && !o.invert && count == cm {
+        rep.branch(&format!("class:{}:attributed", ML_COUNT));
+        ML_COUNT
+    } else {
+        ""
+    }
+}
+
+/// `multiline-count-counts-matches`, mechanism for "--count-matches differs from what a line-counting sink reports
+/// under -m N": effective multi-line and the Summary sink reached its limit by counting matches (`cm >= N`) while
+/// the other sink counts blocks and therefore goes on (`other >= cm`).
+fn class_limit_by_matches(rep: &mut Report, ml: bool, o: &Opts, cm: u64, other: u64) -> &'static str {
+    match o.max {
+        Some(n) if ml && !o.invert && n > 0 && cm >= n && other >= cm => {
+            rep.branch(&format!("class:{}:attributed", ML_COUNT));
+            ML_COUNT
+        }
+        _ => "",
+    }
+}
+
+/// `multiline-only-matching-records` (a match spanning lines or an empty match really occurs in the file) /
+/// `crlf-line-matches-only-through-cr` / `line-matches-only-in-buffer-context` (every match message without submatch
+/// is such a line, and they account for the whole difference) for "--count-matches differs from the number of -o records".
+fn class_cm_vs_o(rep: &mut Report, ml: bool, o: &Opts, m: &RegexMatcher, input: &[u8], mech: &Mech, cm: u64, orec: u64) -> &'static str {
+    if ml {
+        // -o and --json stop at the same block under -m, so the JSON messages tell exactly how many records the
+        // line-by-line rule of `-U -o` yields; the class is at work iff that rule explains the number printed and
+        // it differs from the number of matches because a match spans lines, is empty, or lies in a terminator
+        if orec == mech.o_pieces && mech.o_pieces != mech.subs {
+            if cm == mech.subs {
+                rep.branch(&format!("class:{}:attributed", ML_ONLY));
+                return ML_ONLY;
+            }
+            return class_limit_by_matches(rep, ml, o, cm, mech.subs);
+        }
+        if orec == mech.o_pieces && cm != mech.subs {
+            return class_limit_by_matches(rep, ml, o, cm, mech.subs);
+        }
+        return "";
+    }
+    // every line without submatch is printed whole by -o (one record) and counts 0 matches: the lines of the two
+    // "reported by the searcher, no match for the printers" classes must account for the whole difference
+    if !mech.no_sub_lines.is_empty() && orec == cm + mech.no_sub_lines.len() as u64 {
+        if mech.no_sub_lines.iter().all(|l| f1_line(o, m, l)) {
+            rep.branch(&format!("class:{}:attributed", F1));
+            return F1;
+        }
+        if mech.no_sub_lines.iter().zip(&mech.no_sub_offs).all(|(l, &off)| f1_line(o, m, l) || ctx_line(o, m, input, off, l)) {
+            rep.branch(&format!("class:{}:attributed", CTX));
+            return CTX;
+        }
+    }
+    ""
 }
 
 // ---------------------------------------------------------------- lib
@@ -336,28 +490,29 @@ fn run_lib(case: &str, o: &Opts, drv: &mut Driver, rep: &mut Report) {
         let json_matches: Vec<&Value> = json_msgs.iter().filter(|m| m["type"] == "match").collect();
         let json_subs: u64 = json_matches.iter().map(|m| m["data"]["submatches"].as_array().map_or(0, |a| a.len()) as u64).sum();
         let tie_rel = "relations between the outputs of the reporting modes (property C10)";
-        let f1 = !ml && f1_input(o, &matcher, input);
+        let mech = mech_of(json_matches.iter().copied(), o.crlf);
         let fail = |rep: &mut Report, class: &str, d: String| {
             viol(rep, "impl_vs_spec", class, tie_rel, case, format!("file {} ({:?}): {}", i, show(input), d));
         };
         // R1: --count = number of matching lines standard mode prints
         if count != std_lines {
-            let class = if ml && !o.invert { ML_COUNT } else { "" };
+            let class = class_count_vs_lines(rep, ml, o, count, count_matches);
             fail(rep, class, format!("--count {} but standard mode prints {} matching lines", count, std_lines));
         }
         // R2: --count-matches = number of -o records = number of JSON submatches (not under -v: normalised to --count)
         if !o.invert {
             if count_matches != json_subs {
-                fail(rep, if ml { ML_COUNT } else { "" }, format!("--count-matches {} but JSON reports {} submatches", count_matches, json_subs));
+                let class = class_limit_by_matches(rep, ml, o, count_matches, json_subs);
+                fail(rep, class, format!("--count-matches {} but JSON reports {} submatches", count_matches, json_subs));
             }
             if count_matches != o_records {
-                fail(rep, if ml { ML_ONLY } else if f1 { F1 } else { "" }, format!("--count-matches {} but -o prints {} records", count_matches, o_records));
+                let class = class_cm_vs_o(rep, ml, o, &matcher, input, &mech, count_matches, o_records);
+                fail(rep, class, format!("--count-matches {} but -o prints {} records", count_matches, o_records));
             }
             // R3: every reported matching line has at least one submatch
-            for m in &json_matches {
-                if m["data"]["submatches"].as_array().map_or(true, |a| a.is_empty()) {
-                    fail(rep, if f1 { F1 } else { "" }, format!("JSON match message without submatch: {}", m["data"]["lines"]));
-                }
+            for (l, &off) in mech.no_sub_lines.iter().zip(&mech.no_sub_offs) {
+                let class = no_sub_class(rep, ml, o, &matcher, input, off, l);
+                fail(rep, class, format!("JSON match message without submatch: {:?}", show(l)));
             }
         }
         // R4: -l iff count > 0; --files-without-match is the complement
@@ -555,7 +710,7 @@ fn run_cli(case: &str, o: &Opts, args: &Args, drv: &mut Driver, rep: &mut Report
     let bl_set = nul_list(&bl_r.stdout);
     // JSON per file
     let mut j_subs: BTreeMap<String, u64> = BTreeMap::new();
-    let mut j_empty_match = false;
+    let mut j_msgs: BTreeMap<String, Vec<Value>> = BTreeMap::new();
     let mut j_sum = [0u64; 5];
     let mut j_total: Option<[u64; 5]> = None;
     let mut results_sx = vec![];
@@ -572,10 +727,8 @@ fn run_cli(case: &str, o: &Opts, args: &Args, drv: &mut Driver, rep: &mut Report
         match v["type"].as_str().unwrap_or("") {
             "match" => {
                 let n = v["data"]["submatches"].as_array().map_or(0, |a| a.len()) as u64;
-                if n == 0 {
-                    j_empty_match = true;
-                }
-                *j_subs.entry(p).or_default() += n;
+                *j_subs.entry(p.clone()).or_default() += n;
+                j_msgs.entry(p).or_default().push(v.clone());
             }
             "end" => {
                 let s = &v["data"]["stats"];
@@ -604,9 +757,11 @@ fn run_cli(case: &str, o: &Opts, args: &Args, drv: &mut Driver, rep: &mut Report
             _ => {}
         }
     }
-    let f1 = !ml && o.files.iter().any(|f| f1_input(o, &matcher, f));
     let fail = |rep: &mut Report, class: &str, d: String| viol(rep, "impl_vs_spec", class, tie_rel, case, d);
     let inv_class = "";
+    let file_of = |p: &str| -> &[u8] {
+        o.files.iter().enumerate().find(|(i, _)| path_of(*i) == p).map_or(&[][..], |(_, f)| &f[..])
+    };
     let mut any_count = false;
     for p in &all {
         let count = num(&c_pp, p);
@@ -617,15 +772,23 @@ fn run_cli(case: &str, o: &Opts, args: &Args, drv: &mut Driver, rep: &mut Report
         if count > 0 {
             any_count = true;
         }
+        let mech = mech_of(j_msgs.get(p).map(|v| v.iter()).into_iter().flatten(), o.crlf);
         if count != lines {
-            fail(rep, if ml && !o.invert { ML_COUNT } else { "" }, format!("{}: -c {} but {} matching lines printed", p, count, lines));
+            let class = class_count_vs_lines(rep, ml, o, count, cm);
+            fail(rep, class, format!("{}: -c {} but {} matching lines printed", p, count, lines));
         }
         if !o.invert {
             if cm != js {
-                fail(rep, if ml { ML_COUNT } else { "" }, format!("{}: --count-matches {} but --json has {} submatches", p, cm, js));
+                let class = class_limit_by_matches(rep, ml, o, cm, js);
+                fail(rep, class, format!("{}: --count-matches {} but --json has {} submatches", p, cm, js));
             }
             if cm != orec {
-                fail(rep, if ml { ML_ONLY } else if f1 { F1 } else { "" }, format!("{}: --count-matches {} but -o prints {} records", p, cm, orec));
+                let class = class_cm_vs_o(rep, ml, o, &matcher, file_of(p), &mech, cm, orec);
+                fail(rep, class, format!("{}: --count-matches {} but -o prints {} records", p, cm, orec));
+            }
+            for (l, &off) in mech.no_sub_lines.iter().zip(&mech.no_sub_offs) {
+                let class = no_sub_class(rep, ml, o, &matcher, file_of(p), off, l);
+                fail(rep, class, format!("{}: JSON match message without submatch: {:?}", p, show(l)));
             }
         }
         if l_set.contains(p) != (count > 0) {
@@ -634,9 +797,6 @@ fn run_cli(case: &str, o: &Opts, args: &Args, drv: &mut Driver, rep: &mut Report
         if bl_set.contains(p) == l_set.contains(p) {
             fail(rep, inv_class, format!("{}: listed by -l: {}, by --files-without-match: {}", p, l_set.contains(p), bl_set.contains(p)));
         }
-    }
-    if !o.invert && j_empty_match {
-        fail(rep, if f1 { F1 } else { "" }, "a JSON match message has no submatch".into());
     }
     // exit statuses
     if q_r.code != std_r.code {
@@ -686,7 +846,17 @@ fn run_cli(case: &str, o: &Opts, args: &Args, drv: &mut Driver, rep: &mut Report
         if !o.invert {
             let cm_total: u64 = all.iter().map(|p| num(&cm_pp, p)).sum();
             if sb.get("matches").copied() != Some(cm_total) {
-                fail(rep, if ml { ML_COUNT } else { "" }, format!("--stats 'matches' = {:?}, --count-matches sum to {}", sb.get("matches"), cm_total));
+                // mechanism: under -m N some file's Summary sink stopped after N *matches* while the Standard sink
+                // behind --stats counts N *blocks* (so it sees at least as many matches)
+                let stats_matches = sb.get("matches").copied().unwrap_or(0);
+                let class = match o.max {
+                    Some(n) if ml && n > 0 && all.iter().any(|p| num(&cm_pp, p) >= n) && stats_matches >= cm_total => {
+                        rep.branch(&format!("class:{}:attributed", ML_COUNT));
+                        ML_COUNT
+                    }
+                    _ => "",
+                };
+                fail(rep, class, format!("--stats 'matches' = {:?}, --count-matches sum to {}", sb.get("matches"), cm_total));
             }
         }
         rep.branch("cli:stats-compared");
